@@ -14,6 +14,14 @@
 // other node), so that the request's routing-table poll (handleTargetBridge ->
 // lookupTunnelRouting) finds it - the branch on which only processCrossNodeForward compares the
 // presented mapping with the tunnel's mapping.
+//
+// Round 3. Mapping state "lapsed": the mapping carries an ExpiresAt lapseIn ahead from the start of
+// the script; the SetMap step only waits until it has passed (natural expiry: no store write).
+// Order "closeAfter": a served tunnel, the mapping is changed, then the Close step lets data cross
+// both ways, hangs both ends up and waits until the bridge is gone and its final traffic report has
+// been stored - a whole-record write AFTER the change - before the requester arrives. Tunnel
+// states prefix*: two tunnel ids sharing their first 16 bytes (T = 16 bytes, T+ = the full id),
+// either one the victim's, the requester naming the long one on the same / on another node.
 package main
 
 import (
@@ -31,9 +39,10 @@ import (
 )
 
 const (
-	settle         = 5 * time.Second       // upper bound for an expected asynchronous effect (bridge start, marker delivery)
-	grace          = 40 * time.Millisecond // extra time after the expected effects before the final snapshot
-	expiredJustAgo = 250 * time.Millisecond
+	settle         = 5 * time.Second                        // upper bound for an expected asynchronous effect (bridge start, marker delivery)
+	grace          = 40 * time.Millisecond                  // extra time after the expected effects before the final snapshot
+	expiredJustAgo = 20 * time.Millisecond                  // "expiredJust": ExpiresAt this far in the past when it is written (the boundary of IsExpired)
+	lapseIn        = 300 * time.Millisecond                 // "lapsed": the mapping's ExpiresAt lies this far ahead when the script starts
 	lateGap        = 120 * time.Millisecond                 // late cells: the tunnel is registered this long after the request passed the dispatch
 	tunnelID       = "tcp-tunnel-1758990000000000000-18080" // the shape client/mapping generateTunnelID produces
 )
@@ -106,20 +115,22 @@ type party struct {
 }
 
 type world struct {
-	nodes   map[string]*srvkit.Server
-	tun     map[string]*srvkit.Tunnels
-	xn      []*srvkit.CrossNode
-	cl      map[string]client // L, T, X, X2
-	m, m2   string            // mapping ids: M (L -> T), M2 (X -> X2)
-	m3      string            // M3 (X2 -> X): the stranger is its target
-	secret  string
-	secret3 string
-	parties map[string]*party
-	order   []string
-	nconn   int
-	tids    map[string]string // "T" / "T+" -> concrete tunnel id
-	gate    *srvkit.WriteGate // slow mapping store (usage orders only)
-	heldS   bool              // the source's open is still inside its usage write (in-flight)
+	nodes       map[string]*srvkit.Server
+	tun         map[string]*srvkit.Tunnels
+	xn          []*srvkit.CrossNode
+	cl          map[string]client // L, T, X, X2
+	m, m2       string            // mapping ids: M (L -> T), M2 (X -> X2)
+	m3          string            // M3 (X2 -> X): the stranger is its target
+	secret      string
+	secret3     string
+	parties     map[string]*party
+	order       []string
+	nconn       int
+	tids        map[string]string // "T" / "T+" -> concrete tunnel id
+	gate        *srvkit.WriteGate // slow mapping store (usage orders only)
+	heldS       bool              // the source's open is still inside its usage write (in-flight)
+	lapseAt     time.Time         // mapping state lapsed: the ExpiresAt the mapping carries from the start
+	wroteExpiry time.Time         // the ExpiresAt the last SetMap wrote (expired, expiredJust)
 }
 
 func (w *world) close() {
@@ -137,7 +148,7 @@ func newWorld(twoNodes, crossNode, keyless bool, shape string, cell cellT) (*wor
 	// victim's id is its first 16 bytes (all the cross-node frame header has room for) and the
 	// other mapping's tunnel carries the full, longer id
 	w.tids = map[string]string{"T": tunnelID}
-	if cell.TS == "prefixRemote" {
+	if prefixState(cell.TS) {
 		w.tids = map[string]string{"T": tunnelID[:16], "T+": tunnelID}
 	}
 	a, err := srvkit.NewServer(srvkit.Options{NodeID: "node-A"})
@@ -230,8 +241,25 @@ func (w *world) setMap(ms string) error {
 	if err := w.administer(ms); err != nil {
 		return err
 	}
+	// what to wait for is the WRITTEN RECORD, not the validity the code computes from it: for the
+	// time-dependent states (expiredJust, lapsed) that computation is exactly what the cell tests,
+	// and waiting for "invalid" would wait any tolerance out
+	landed := func() bool {
+		m := w.tun["A"].StoredMapping(w.m)
+		switch ms {
+		case "active", "lapsed": // nothing was written
+			return true
+		case "missing":
+			return m == nil
+		case "revoked":
+			return m != nil && m.IsRevoked
+		case "expired", "expiredJust":
+			return m != nil && m.ExpiresAt != nil && m.ExpiresAt.Equal(w.wroteExpiry)
+		}
+		return m != nil && string(m.Status) == ms // inactive, error, suspended, ...: the status string
+	}
 	deadline := time.Now().Add(300 * time.Millisecond)
-	for w.tun["A"].StoredValid(w.m) != (ms == "active") && time.Now().Before(deadline) {
+	for !landed() && time.Now().Before(deadline) {
 		time.Sleep(200 * time.Microsecond)
 	}
 	return nil
@@ -248,9 +276,19 @@ func (w *world) administer(ms string) error {
 		}
 		return nil
 	case "expired":
-		return t.Expire(w.m)
+		w.wroteExpiry = time.Now().Add(-time.Hour)
+		return t.ExpireAt(w.m, w.wroteExpiry)
 	case "expiredJust": // the boundary: expired a moment ago
-		return t.ExpireAt(w.m, time.Now().Add(-expiredJustAgo))
+		w.wroteExpiry = time.Now().Add(-expiredJustAgo)
+		return t.ExpireAt(w.m, w.wroteExpiry)
+	case "lapsed": // natural expiry: nothing is written, the ExpiresAt set at the start passes
+		if w.lapseAt.IsZero() {
+			return fmt.Errorf("mapping state lapsed without an expiry set at the start")
+		}
+		if d := time.Until(w.lapseAt.Add(2 * time.Millisecond)); d > 0 {
+			time.Sleep(d)
+		}
+		return nil
 	case "inactive":
 		return t.Deactivate(w.m)
 	case "missing":
@@ -299,6 +337,11 @@ func (w *world) login(c *srvkit.Conn, id string) error {
 }
 
 func usageOrder(ord string) bool { return ord == "slowUsage" || ord == "inflightUsage" }
+
+// histOrder: orders that are a history class of their own in the judge's detail.
+func histOrder(ord string) bool { return usageOrder(ord) || ord == "closeAfter" }
+
+func prefixState(ts string) bool { return strings.HasPrefix(ts, "prefix") }
 
 func (w *world) request(cred, tid string) *packet.TunnelOpenRequest {
 	r := &packet.TunnelOpenRequest{TunnelID: w.tids[tid]}
@@ -472,8 +515,8 @@ func (w *world) open(st stepT, cell cellT, t *fw.Trace) (err error) {
 	if late {
 		ts = cell.TS // nothing registered at arrival; the tunnel appears while the request is served
 	}
-	if cell.TS == "prefixRemote" && st.Who == "R" {
-		ts = cell.TS // remote, and the named id shares its 16-byte prefix with another tunnel there
+	if prefixState(cell.TS) && st.Who == "R" {
+		ts = cell.TS // the named id shares its 16-byte prefix with another tunnel on the source node
 	}
 	ms := cell.MS
 	if st.MS != "" {
@@ -487,7 +530,7 @@ func (w *world) open(st stepT, cell cellT, t *fw.Trace) (err error) {
 	if cell.Shape != "" && cell.Shape != "std" {
 		p.ev["shape"] = cell.Shape
 	}
-	if usageOrder(cell.Ord) {
+	if histOrder(cell.Ord) {
 		p.ev["ord"] = cell.Ord
 	}
 	req := w.request(st.Cred, st.Tid)
@@ -670,8 +713,66 @@ func (w *world) finish(p *party, cell cellT, t *fw.Trace, exp json.RawMessage) e
 		}
 	}
 	w.bind(st, p, cell)
+	if st.Must && w.attachment(p) == "none" && w.lapsing() {
+		return inconclusiveErr("the build steps were too slow for the mapping's expiry")
+	}
 	if st.Must && w.attachment(p) == "none" {
 		return fmt.Errorf("legitimate flow does not work: %s (%s, %s) acknowledged but not attached", st.Who, st.ID, st.Cred)
+	}
+	return nil
+}
+
+// lapsing: the mapping carries an expiry that has (nearly) passed - a legitimate flow that fails
+// now says nothing about the kit.
+func (w *world) lapsing() bool {
+	return !w.lapseAt.IsZero() && time.Now().After(w.lapseAt.Add(-50*time.Millisecond))
+}
+
+// closeTunnel is the Close step: the served tunnel of mapping M carries data both ways, both ends
+// hang up, the bridge goes away and its final traffic report (read the mapping, add the byte
+// counts, write the whole record) reaches the store.
+func (w *world) closeTunnel(st stepT, cell cellT, t *fw.Trace) error {
+	s, tg := w.parties["S"], w.parties["T"]
+	if n, _, v := w.bridge("T"); n != "" && s != nil && tg != nil && s.ack == "ok" && tg.ack == "ok" && v.TargetReady {
+		ms, mt := []byte("<<DATA-S>>"), []byte("<<DATA-T>>")
+		s.d.Feed(ms)
+		tg.d.Feed(mt)
+		if !waitFor(func() bool {
+			return bytes.Contains(tg.c.T.Peek(), ms) && bytes.Contains(s.c.T.Peek(), mt)
+		}) {
+			return inconclusiveErr("data did not cross the served tunnel within the margin")
+		}
+		// these bytes crossed the tunnel of M between its two legitimate ends; the final snapshot
+		// is about what reaches a connection from here on
+		s.c.TakeRaw()
+		tg.c.TakeRaw()
+		before := w.tun["A"].TrafficBytes(w.m)
+		s.d.Close()
+		tg.d.Close()
+		if !waitFor(func() bool { n, _, _ := w.bridge("T"); return n == "" }) {
+			return inconclusiveErr("the bridge did not go away after both ends hung up")
+		}
+		// the report runs on the bridge's own goroutine once its context is done; a deleted
+		// mapping has no record to report to
+		if cell.MS != "missing" {
+			if !waitFor(func() bool { return w.tun["A"].TrafficBytes(w.m) > before }) {
+				return inconclusiveErr("the closed bridge's traffic report did not reach the store within the margin")
+			}
+		}
+		time.Sleep(grace)
+	} // else: no served tunnel (the legitimate flow was refused) - nothing to close
+	if len(st.Exp) > 0 {
+		var e struct {
+			Valid bool `json:"valid"`
+		}
+		if json.Unmarshal(st.Exp, &e) == nil {
+			bindSteps.Add(1)
+			if got := w.tun["A"].StoredValid(w.m); got != e.Valid {
+				bindMismatch.Add(1)
+				s := fmt.Sprintf("Close %s:%s:%s:%s: model stored-valid=%v, store %v", cell.ID, cell.Cred, cell.MS, cell.Ord, e.Valid, got)
+				firstMismatch.CompareAndSwap(nil, &s)
+			}
+		}
 	}
 	return nil
 }
@@ -773,6 +874,9 @@ func (w *world) markers(t *fw.Trace, cell cellT, legitServed bool) error {
 	t.Events = append(t.Events, fw.Event{"ev": "Obs", "bm": bm, "att": att, "am": am, "marker": marker, "lm": lm, "stray": stray})
 	if legitServed {
 		s, tg := w.parties["S"], w.parties["T"]
+		if (s == nil || tg == nil || marker["S"] != true || marker["T"] != true) && !w.lapseAt.IsZero() {
+			return inconclusiveErr("the build steps were too slow for the mapping's expiry")
+		}
 		if s == nil || tg == nil || marker["S"] != true || marker["T"] != true {
 			return fmt.Errorf("legitimate flow does not work: no data between the legitimate source and target (att=%v marker=%v)", att, marker)
 		}
@@ -801,7 +905,14 @@ func drive(env *fw.Env, b fw.Behaviour) *fw.Trace {
 	t := &fw.Trace{Status: fw.Realised}
 	t.Events = append(t.Events, fw.Event{"ev": "Cell", "id": beh.Cell.ID, "cred": beh.Cell.Cred, "ms": beh.Cell.MS, "ts": beh.Cell.TS, "ord": beh.Cell.Ord})
 	cur := "active"
-	legit := beh.Cell.Ord == "legitFirst"
+	legit := beh.Cell.Ord == "legitFirst" || beh.Cell.Ord == "closeAfter"
+	if beh.Cell.MS == "lapsed" {
+		// the mapping expires by itself: it has carried this ExpiresAt since before the first request
+		w.lapseAt = time.Now().Add(lapseIn)
+		if err := w.tun["A"].ExpireAt(w.m, w.lapseAt); err != nil {
+			return &fw.Trace{Status: fw.DriverError, Note: "lapsing mapping: " + err.Error()}
+		}
+	}
 	defer func() {
 		if w.gate != nil {
 			w.gate.Release() // never leave a request parked in the slow store
@@ -826,6 +937,8 @@ func drive(env *fw.Env, b fw.Behaviour) *fw.Trace {
 			err = w.markers(t, beh.Cell, beh.Cell.Ord == "legitFirst" && beh.Cell.TS == "served")
 		case "UsageLand":
 			err = w.usageLand(st, beh.Cell, t)
+		case "Close":
+			err = w.closeTunnel(st, beh.Cell, t)
 		default:
 			err = fmt.Errorf("step %q?", st.Op)
 		}
@@ -921,14 +1034,15 @@ func selfTest(env *fw.Env, acc []*fw.Trace) []*fw.Trace {
 }
 
 func main() {
-	all := `{"none", "waiting", "served", "remote", "lateLocal", "lateRemote", "prefixRemote"}`
-	local := `{"none", "waiting", "served", "lateLocal", "lateRemote", "prefixRemote"}` // the late / prefix classes are few (105 cells) and carry their own nodes
-	orders := `{"legitFirst", "reqFirst", "slowUsage"}`
+	all := `{"none", "waiting", "served", "remote", "lateLocal", "lateRemote", "prefixRemote", "prefixRemoteRev", "prefixLocal", "prefixLocalRev"}`
+	local := `{"none", "waiting", "served", "lateLocal", "lateRemote", "prefixRemote", "prefixRemoteRev", "prefixLocal", "prefixLocalRev"}` // the late / prefix classes are few (210 cells) and carry their own nodes
+	orders := `{"legitFirst", "reqFirst", "slowUsage", "closeAfter"}`
 	genOrders := orders
-	if os.Getenv("VERIF_C04_INFLIGHT") != "" {
-		// development aid: also change the mapping while the earlier open is still between the
-		// read and the write of its usage record (see spec/TunnelOpen_show_inflight.cfg)
-		genOrders = `{"legitFirst", "reqFirst", "slowUsage", "inflightUsage"}`
+	if os.Getenv("VERIF_C04_INFLIGHT") != "" || strings.Contains(strings.Join(os.Args, " "), "thorough") {
+		// thorough tier (and VERIF_C04_INFLIGHT=1): also change the mapping while the earlier open is still
+		// between the read and the write of its usage record (see spec/TunnelOpen_show_inflight.cfg); on the tree
+		// as found this reproduces the open known finding */inflightUsage:* (lost update, no small repair)
+		genOrders = `{"legitFirst", "reqFirst", "slowUsage", "closeAfter", "inflightUsage"}`
 	}
 	fw.Main(&fw.Property{
 		ID:        "C04",
@@ -939,6 +1053,12 @@ func main() {
 					Consts: map[string]string{"FIXES": "{}", "MASKED": "TRUE", "EMIT": "FALSE", "TSTATES": all, "ORDERS": orders}},
 				{Name: "dispatcher, with patches C04-1..3 (strict invariants, no deviation reachable)", Module: "TunnelOpen", Cfg: "TunnelOpen_mc.cfg", Workers: 2,
 					Consts: map[string]string{"FIXES": patched, "MASKED": "FALSE", "EMIT": "FALSE", "TSTATES": all, "ORDERS": orders}},
+				// model sanity (says nothing about the code): the as-found design and the patched design under
+				// each named deviation (usageAsync, expirySkew, headerFirst, lookupCache, validityCache,
+				// closeStaleCopy) must each reach an unauthorised attachment - POSTCONDITION AllShown. A
+				// deviation the model could no longer express would make the run above vacuous. The single
+				// configurations spec/TunnelOpen_show_<name>.cfg show them one by one.
+				{Name: "every named deviation (as-found tree, usageAsync, expirySkew, headerFirst, lookupCache, validityCache, closeStaleCopy) is exhibited", Module: "TunnelOpen", Cfg: "TunnelOpen_show_all.cfg", Workers: 1},
 			}
 		},
 		GenJobs: func(env *fw.Env) []fw.TLCJob {
@@ -962,19 +1082,10 @@ func main() {
 			}
 			fmt.Printf("[binding] %d of %d requests left the prediction of the model with FIXES = %s%s\n", bindMismatch.Load(), bindSteps.Load(), fixes, msg)
 			fmt.Printf("[legit] %d cells ran the plain legitimate flow (source creates, target joins with the secret, data crosses both ways) - all worked\n", legitOK.Load())
-			// the as-found design with strict invariants must exhibit the unauthorised attachment
-			r, err := fw.RunTLC(fw.TLCJob{Name: "show:as-found strict", Module: "TunnelOpen", Cfg: "TunnelOpen_show_asis.cfg", Workers: 1})
-			if err != nil {
-				return err
-			}
-			if r.OK || !strings.Contains(r.Violation, "AttachedEntitled") {
-				return fmt.Errorf("the as-found model no longer exhibits the unauthorised attachment (ok=%v violation=%q)", r.OK, r.Violation)
-			}
-			fmt.Printf("[model] as-found design, strict invariants: TLC exhibits %s violated (expected)\n", r.Violation)
 			return nil
 		},
 		NonTrivial: func(t *fw.Trace) bool { return len(t.Events) >= 3 },
-		Rule: "one behaviour per cell of identity x credential x mapping state x tunnel state at arrival x arrival order (complete product, printed by TLC), " +
+		Rule: "one behaviour per cell of identity x credential x mapping state (incl. boundary / natural expiry) x tunnel state at arrival (incl. late and prefix-related ids) x arrival order / history class (complete product, printed by TLC), " +
 			"replayed on the real server assembly; non-trivial = the requester's TunnelOpen was dispatched and the final attachment / marker snapshot taken",
 		Assumptions: []string{
 			"the protocol adapter's read loop is emulated: HandlePacket per packet; transports are fake sockets whose inbound side the driver feeds (TCP-like: the transport does not know its client id)",
@@ -982,6 +1093,9 @@ func main() {
 			"mapping M always has a non-empty secret except in the driver-made 'keyless' cells; resume tokens are bogus (the wired cloud control offers no resume validation)",
 			"mapping states error / suspended are status strings stored through UpdatePortMappingStatus; mapping shapes noListen / noTarget (ListenClientID / TargetClientID = 0) are crossed with identity x credential x mapping state at tunnel state none only (no client can legitimately create their bridge)",
 			"identity none = no handshake at all, noneHs = a handshake that announced the listen client's id and failed the challenge",
+			"mapping state expiredJust = ExpiresAt written 20 ms into the past; lapsed = an ExpiresAt 300 ms ahead set before the first request, the script waits until it has passed (no store write); the driver waits for the written record, never for the validity the code computes from it",
+			"order slowUsage: the connection-code service talks to the mapping service through a gate that holds the next whole-record write; a write issued by the request's own goroutine is released at once (it is part of the open), any other is held until after the mapping was changed; order closeAfter: data crosses the served tunnel, the mapping is changed, both ends hang up and the bridge's final traffic report is awaited before the requester arrives",
+			"prefix classes: T = first 16 bytes of the stock-shaped tunnel id, T+ = the full id; the requester always names T+ (only a long id is truncated by a 16-byte field)",
 		},
 		TrustedBase: []string{"TLC", "spec/TunnelOpenTrace.tla as the reading of the C04 statement", "srvkit fake transports (Duplex) and server assembly (tunnels.go)"},
 	})
